@@ -303,6 +303,10 @@ def run(ctx, only=None):
         if only is not None:
             continue
         # ---- correspondence of the torch results with the Lean model on a few shared kernels
+        tpj = TU.stabilizer_project(tgr.clone(), torch.tensor(gco, dtype=F), r)
+        ctx.q('T.stabilizer_project', 'T.project %d %s %s' % (r, H.erows_ops(rows), E.estrs(gco.tolist())),
+              (int(tpj[1]), [O.from_gp([ival(v) for v in g], 0)[0] for g in tpj[0].tolist()]),
+              lambda s_: (int(s_.split(' ')[0]), [o_[0] for o_ in H.drows_ops(s_.split(' ')[1])]))
         tr = TU.clifford_rotate(tg(Gop[0]), Gop[1], tgsP.clone(), tpsP.clone())
         ctx.q('T.clifford_rotate', 'rotate %s %s' % (E.epauli(O.to_g(Gop[0]), Gop[1]), H.erows_ops(Ps)),
               [O.from_gp([ival(v) for v in g], ival(p)) for g, p in zip(tr[0].tolist(), tr[1].tolist())], H.drows_ops)
